@@ -8,7 +8,7 @@
    thriftgo's checker guarantees) and wt e s v (Wire/Value.v). *)
 From Coq Require Import List ZArith Bool Lia Permutation.
 From Verif Require Import Base.Bytes Base.BE Wire.TType Wire.WVal Wire.Codec Wire.CodecFacts
-  Wire.Schema Wire.Value Wire.Std Wire.StdFacts Wire.StdPresFacts.
+  Wire.Schema Wire.Value Wire.Std Wire.StdFacts Wire.StdPresFacts Wire.StdMoreFacts.
 Import ListNotations.
 Open Scope Z_scope.
 
@@ -152,6 +152,84 @@ Theorem C02_reorder_fields_permutation : forall e s fs fs' wfs,
   exists wfs', to_wire e s (VStruct fs') = Ok (WStruct wfs') /\ Permutation wfs wfs'.
 Proof. exact to_wire_reorder. Qed.
 Print Assumptions C02_reorder_fields_permutation.
+
+(* ---- Read, at full strength: every nesting level, bytes, existing objects ---- *)
+
+(* [strip e t w] removes, at EVERY struct level of w (inside list / set elements, map keys and values,
+   nested fields), the fields a reader of the schema must skip; reading w is reading strip w *)
+Theorem C02_read_ignores_nested : forall e w t, from_w e t (strip e t w) = from_w e t w.
+Proof. exact read_ignores_nested. Qed.
+Print Assumptions C02_read_ignores_nested.
+
+Theorem C02_read_ignores_nested_top : forall e s init wfs,
+  from_wire e s init (WStruct (strip_fields e s wfs)) = from_wire e s init (WStruct wfs).
+Proof. exact read_ignores_nested_top. Qed.
+Print Assumptions C02_read_ignores_nested_top.
+
+(* two inputs that differ only in skippable fields, anywhere, read the same *)
+Theorem C02_read_same_modulo_skippable : forall e t w1 w2,
+  strip e t w1 = strip e t w2 -> from_w e t w1 = from_w e t w2.
+Proof. exact read_same_modulo_skippable. Qed.
+Print Assumptions C02_read_same_modulo_skippable.
+
+(* byte level: the encoding of a skippable field spliced in at any field boundary changes nothing *)
+Theorem C02_read_bytes_ignores_inserted : forall e s init l1 u l2 rest,
+  wf (WStruct (l1 ++ u :: l2)) -> skippable e s u = true ->
+  read_bytes e s init (flat_map enc_field l1 ++ enc_field u ++ enc (WStruct l2) ++ rest) =
+  read_bytes e s init (flat_map enc_field l1 ++ enc (WStruct l2) ++ rest).
+Proof. exact read_bytes_ignores_inserted. Qed.
+Print Assumptions C02_read_bytes_ignores_inserted.
+
+(* no proper prefix of the bytes Write produced is accepted, whatever object is read into *)
+Theorem C02_written_bytes_truncated : forall e s v bs init n,
+  wf_env e = true -> wt e s v = true -> write_bytes e s v = Ok bs -> (n < length bs)%nat ->
+  read_bytes e s init (firstn n bs) = Err EDecode.
+Proof. exact written_bytes_truncated. Qed.
+Print Assumptions C02_written_bytes_truncated.
+
+(* the reader never fails for lack of fuel: a decode consumes at least as many bytes as its result is
+   deep, a result needs no more fuel than its depth, hence dec_struct (fuel = input length + 1) decodes
+   whatever any amount of fuel decodes *)
+Theorem C02_dec_consumed : forall f t bs v r, dec f t bs = Some (v, r) -> (depth v + length r <= length bs)%nat.
+Proof. exact dec_consumed. Qed.
+Print Assumptions C02_dec_consumed.
+
+Theorem C02_dec_fuel_depth : forall f t bs v r, dec f t bs = Some (v, r) ->
+  forall f', (depth v <= f')%nat -> dec f' t bs = Some (v, r).
+Proof. exact dec_fuel_depth. Qed.
+Print Assumptions C02_dec_fuel_depth.
+
+Theorem C02_dec_struct_complete : forall f bs v r, dec f T_STRUCT bs = Some (v, r) -> dec_struct bs = Some (v, r).
+Proof. exact dec_struct_complete. Qed.
+Print Assumptions C02_dec_struct_complete.
+
+(* Read into an existing object touches only the slots whose ids occur on the wire *)
+Theorem C02_read_frame : forall e s fs0 wfs fs',
+  from_wire e s (VStruct fs0) (WStruct wfs) = Ok (VStruct fs') ->
+  map fst fs' = map fst fs0 /\
+  forall id, ~ In id (map (fun wf => snd (fst wf)) wfs) -> slot_of id fs' = slot_of id fs0.
+Proof. exact read_frame. Qed.
+Print Assumptions C02_read_frame.
+
+(* duplicates: the last occurrence of a field replaces the whole slot *)
+Theorem C02_read_last_wins : forall e s fs0 wfs f x v fs',
+  find_field (f_id f) (s_fields s) = Some f ->
+  from_w e (f_ty f) x = Ok v ->
+  from_wire e s (VStruct fs0) (WStruct (wfs ++ [(ttype_of e (f_ty f), f_id f, x)])) = Ok (VStruct fs') ->
+  In (f_id f) (map fst fs0) ->
+  slot_of (f_id f) fs' = Some (wrap_slot f v).
+Proof. exact read_last_wins. Qed.
+Print Assumptions C02_read_last_wins.
+
+(* getters: a set field shows its payload, an unset one the declared default (or the zero value), a
+   field without IsSet its slot; the pointer slot Read stores for an optional base field shows the payload *)
+Theorem C02_getters : forall f v,
+  (supports_isset f = true -> isset f v = true -> getter f v = deref f v) /\
+  (supports_isset f = true -> isset f v = false -> getter f v = default_var f) /\
+  (supports_isset f = false -> getter f v = v) /\
+  (base_ptr f = true -> getter f (wrap_slot f v) = v).
+Proof. exact getters_show. Qed.
+Print Assumptions C02_getters.
 
 (* ---- the hypotheses are satisfiable, and what lies outside them ---- *)
 
